@@ -292,6 +292,120 @@ def coq_operand(o, x64, numpy_left=False, gauss=False) -> str:
     return 'OX'
 
 
+# ---- indices ---------------------------------------------------------------------------------
+# one description of an index expression, three printers: the object handed to the real code
+# (entries in their Python / NumPy / JAX form), the NumPy reference index, the Coq term.
+#   {'tuple': bool, 'es': [entry...]}; entry = ['int', i, form] | ['slice', lo, hi, step] | ['ellipsis'] |
+#   ['none'] | ['iarr', shape, data, form] | ['mask', shape, 0/1 data, form] | ['bool', b]
+
+
+def e_int(i, form='py'):
+    return ['int', int(i), form]
+
+
+def e_sl(lo=None, hi=None, st=None):
+    return ['slice', lo, hi, st]
+
+
+ELL = ['ellipsis']
+NEW = ['none']
+FULL = ['slice', None, None, None]
+
+
+def e_arr(shape, data, form='jnp'):
+    assert prod(shape) == len(data)
+    return ['iarr', list(shape), [int(x) for x in data], form]
+
+
+def e_mask(shape, data, form='jnp'):
+    assert prod(shape) == len(data) and len(shape) >= 0
+    return ['mask', list(shape), [int(bool(x)) for x in data], form]
+
+
+def index_desc(es, tup=True):
+    es = [list(e) for e in es]
+    if not tup:
+        assert len(es) == 1
+    return {'tuple': bool(tup), 'es': es}
+
+
+def py_index(ixd, reference=False):
+    """The index object; reference=True: the plain NumPy spelling used by the oracle."""
+    import jax.numpy as jnp
+    import numpy as np
+
+    def ent(e):
+        t = e[0]
+        if t == 'int':
+            form = 'py' if reference else e[2]
+            return e[1] if form == 'py' else np.int64(e[1]) if form == 'np' else jnp.array(e[1], dtype=jnp.int32)
+        if t == 'slice':
+            return slice(e[1], e[2], e[3])
+        if t == 'ellipsis':
+            return Ellipsis
+        if t == 'none':
+            return None
+        if t == 'bool':
+            return bool(e[1])
+        form = 'np' if reference else e[3]
+        if t == 'iarr':
+            a = np.array(e[2], dtype=np.int64).reshape(e[1])
+            return a if form == 'np' else jnp.asarray(a, dtype=jnp.int32)
+        if t == 'mask':
+            a = np.array(e[2], dtype=bool).reshape(e[1])
+            return a if form == 'np' else jnp.asarray(a)
+        raise ValueError(t)
+
+    es = [ent(e) for e in ixd['es']]
+    return tuple(es) if ixd['tuple'] else es[0]
+
+
+def coq_index(ixd) -> str:
+    z = lambda v: f'({int(v)})%Z'  # noqa: E731
+
+    def ent(e):
+        t = e[0]
+        if t == 'int':
+            return f'(EInt {z(e[1])})'
+        if t == 'slice':
+            return f'(ESlice {lib.copt(e[1], z)} {lib.copt(e[2], z)} {z(1 if e[3] is None else e[3])})'
+        if t == 'ellipsis':
+            return 'EEllipsis'
+        if t == 'none':
+            return 'ENew'
+        if t == 'iarr':
+            return f'(EIArr {clist(e[1])} {clist(e[2], z)})'
+        if t == 'mask':
+            return f'(EMask {clist(e[1])} {clist(e[2], cbool)})'
+        raise ValueError(t)
+
+    return clist(ixd['es'], ent)
+
+
+def index_modelled(ixd) -> bool:
+    """Rank-0 masks (Python bools, 0-d boolean arrays) are outside the Coq model: oracle only."""
+    return not any(e[0] == 'bool' or (e[0] == 'mask' and not e[1]) for e in ixd['es'])
+
+
+def show_index(ixd) -> str:
+    def ent(e):
+        t = e[0]
+        if t == 'int':
+            return str(e[1]) + ('' if e[2] == 'py' else f'<{e[2]}>')
+        if t == 'slice':
+            return ':'.join('' if v is None else str(v) for v in e[1:4])
+        if t == 'ellipsis':
+            return '...'
+        if t == 'none':
+            return 'None'
+        if t == 'bool':
+            return str(bool(e[1]))
+        return f'{t}{tuple(e[1])}{e[2]}<{e[3]}>'
+
+    body = ', '.join(ent(e) for e in ixd['es'])
+    return f'[({body}{"," if len(ixd["es"]) == 1 else ""})]' if ixd['tuple'] else f'[{body}]'
+
+
 # ---- trees -----------------------------------------------------------------------------------
 
 
@@ -493,12 +607,16 @@ def _impl_case(case):
         else:
             index = jnp.array(ix[1], dtype=jnp.int32)
         return outcome(lambda: enc_stokes(s[index]))
+    if kind == 'index':
+        s = py_stokes(case['s'])
+        index = py_index(case['index'])
+        return outcome(lambda: enc_stokes(s[index]))
     if kind == 'ravel':
         s = py_stokes(case['s'])
         return outcome(lambda: enc_stokes(s.ravel()))
     if kind == 'reshape':
         s = py_stokes(case['s'])
-        return outcome(lambda: enc_stokes(s.reshape(tuple(case['new']))))
+        return outcome(lambda: enc_stokes(s.reshape(reshape_arg(case))))
     if kind == 'class_for':
         return outcome(lambda: StokesPyTree.class_for(case['name']).stokes)
     if kind == 'factory':
@@ -589,6 +707,20 @@ def _impl_case(case):
             f = ft.normal_like if which == 'normal_like' else ft.uniform_like
             return outcome(lambda: enc_tree(f(t, key), enc_random))
     raise ValueError(kind)
+
+
+def reshape_arg(case):
+    """The shape argument in the spelling of the case: tuple (default), list, bare int, tuple of NumPy ints."""
+    import numpy as np
+
+    new, form = case['new'], case.get('form', 'tuple')
+    if form == 'int':
+        return int(new[0])
+    if form == 'list':
+        return list(new)
+    if form == 'npint':
+        return tuple(np.int64(v) for v in new)
+    return tuple(new)
 
 
 def direct_ref(case, l, r):
@@ -846,6 +978,285 @@ def dot_cases(x64):
     return out
 
 
+# ---- index expressions -----------------------------------------------------------------------
+INDEX_SHAPES = [[], [5], [3, 4], [2, 3, 4]]
+
+
+def mask_patterns(shape, rnd, extremes=True):
+    """Boolean patterns of a shape: two seeded random ones that are neither empty nor full nor 'row-like'
+    wherever possible, plus (extremes) all-False and all-True."""
+    n = prod(shape)
+    out = []
+    for _ in range(40):
+        if len(out) == 2:
+            break
+        d = [rnd.random() < 0.5 for _ in range(n)]
+        if n > 1 and (all(d) or not any(d)):
+            continue
+        if d not in out:
+            out.append(d)
+    for d in ([i % 2 == 0 for i in range(n)], [i % 2 == 1 for i in range(n)], [i == n - 1 for i in range(n)]):
+        if len(out) < 2 and d not in out:
+            out.append(d)
+    if extremes:
+        out += [[False] * n, [True] * n]
+    return out
+
+
+def axis_slices(n):
+    return [e_sl(), e_sl(1, None), e_sl(None, -1), e_sl(None, None, 2), e_sl(None, None, -1), e_sl(None, None, -2), e_sl(1, None, 3),
+            e_sl(n - 1, 0, -2), e_sl(-10, 10), e_sl(n, 1), e_sl(1, 1), e_sl(-2, None), e_sl(n - 1, None, -1), e_sl(-1, -n - 1, -1),
+            e_sl(0, n, n)]  # fmt: skip
+
+
+def index_forms(shape, rnd):
+    """(class label, index description): every NumPy basic / advanced index form on a component of this shape."""
+    r = len(shape)
+    out = []
+
+    def add(label, es, tup=True):
+        out.append((label, index_desc(es, tup)))
+
+    if r == 0:
+        add('empty-tuple', [])
+        add('ellipsis', [ELL], False)
+        add('none', [NEW], False)
+        add('none', [NEW, NEW])
+        add('ellipsis+none', [ELL, NEW])
+        add('ellipsis+none', [NEW, ELL, NEW])
+        add('bad/int-on-0d', [e_int(0)], False)
+        add('bad/slice-on-0d', [FULL], False)
+        add('bad/iarr-on-0d', [e_arr([1], [0])], False)
+        add('bad/mask1-on-0d', [e_mask([1], [1])], False)
+        add('bad/two-ellipsis', [ELL, ELL])
+        for b in (0, 1):
+            add('mask0', [e_mask([], [b], 'np')], False)
+            add('mask0', [e_mask([], [b], 'jnp')], False)
+            add('mask0', [['bool', b]], False)
+            add('mask0', [['bool', b], NEW])
+        return out
+
+    n = shape
+    n0 = n[0]
+    # -- A. one entry, not in a tuple (first axis), and the same in a 1-tuple
+    for i in (0, n0 - 1, -1, -n0):
+        add('int', [e_int(i)], False)
+    add('int', [e_int(1, 'np')], False)
+    add('int', [e_int(-1, 'jnp')], False)
+    add('int', [e_int(-2)])
+    for sl in axis_slices(n0):
+        add('slice', [sl], False)
+    add('slice', [e_sl(None, None, -1)])
+    add('ellipsis', [ELL], False)
+    add('ellipsis', [ELL])
+    add('none', [NEW], False)
+    add('empty-tuple', [])
+    for form in ('jnp', 'np'):
+        add('iarr1', [e_arr([2], [n0 - 1, 0], form)], False)
+        add('iarr1', [e_arr([3], [0, 0, -1], form)], False)
+        add('iarr2', [e_arr([2, 2], [0, n0 - 1, -1, 0], form)], False)
+    add('iarr1', [e_arr([0], [])], False)
+    add('iarr1', [e_arr([1], [-n0])])
+    add('iarr0', [e_arr([], [n0 - 1])], False)
+    add('iarr0', [e_arr([], [-1], 'np')])
+    add('iarr2', [e_arr([2, 1], [1, 0])], False)
+    add('iarr2', [e_arr([1, 3], [0, -1, 1])])
+    add('iarr3', [e_arr([2, 1, 2], [0, 1, -1, 0])], False)
+    # -- B. every entry kind on every axis (behind full slices, and behind an Ellipsis from the right)
+    for k in range(r):
+        nk = n[k]
+        pre = [FULL] * k
+        ents = [('int', e_int(-1)), ('int', e_int(0, 'jnp')), ('slice', e_sl(None, None, -2)), ('slice', e_sl(1, None, 2)),
+                ('slice', e_sl(nk - 1, None, -1)), ('iarr1', e_arr([2], [nk - 1, 0])), ('iarr1', e_arr([3], [-1, 0, 0], 'np')),
+                ('iarr2', e_arr([2, 2], [0, -1, nk - 1, 0])), ('iarr0', e_arr([], [1])), ('none', NEW)]  # fmt: skip
+        for d in mask_patterns([nk], rnd):
+            ents.append(('mask1', e_mask([nk], d, 'jnp' if k % 2 else 'np')))
+        for label, e in ents:
+            if k:
+                add(f'{label}@axis{k}', pre + [e])
+            if k == r - 1 and r > 1:
+                add(f'{label}@last-by-ellipsis', [ELL, e])
+            elif k and r > 1:
+                add(f'{label}@axis{k}-by-ellipsis', [ELL, e] + [FULL] * (r - 1 - k))
+    # -- C. integers on several axes, slices on several axes, mixtures
+    if r >= 2:
+        add('ints', [e_int(n[0] - 1), e_int(-n[1])])
+        add('ints', [e_int(-1, 'np'), e_int(1, 'jnp')])
+        add('slices', [e_sl(None, None, -1), e_sl(1, None, 2)])
+        add('slices', [e_sl(1, None), e_sl(None, -1)])
+        add('int+slice', [e_int(-1), e_sl(None, None, -2)])
+        add('int+slice', [e_sl(None, None, 2), e_int(1)])
+        add('ellipsis+int', [e_int(1), ELL])
+        add('ellipsis+int', [e_int(0), ELL, e_int(-1)])
+        add('ellipsis+slice', [e_sl(1, None), ELL, e_sl(None, None, -1)])
+        add('ellipsis-zero-width', [FULL] * r + [ELL])
+        add('ellipsis-zero-width', [ELL] + [e_int(-1)] * r)
+    if r >= 3:
+        add('ints', [e_int(1), e_int(-1), e_int(2)])
+        add('ints', [e_int(-2), e_int(0), e_int(-n[2])])
+        add('int+slice', [e_int(1), e_sl(None, None, -1), e_int(-1)])
+        add('int+slice', [e_sl(None, None, -1), e_int(1), e_sl(1, None, 2)])
+        add('slices', [e_sl(None, None, -1), e_sl(None, None, 2), e_sl(3, 0, -2)])
+        add('ellipsis+int', [e_int(0), ELL, e_sl(None, None, 2)])
+        add('ellipsis-zero-width', [e_int(1), ELL, e_int(0), e_int(-1)])
+    # -- D. None / newaxis everywhere
+    add('none', [NEW, e_int(-1)])
+    add('none', [e_int(0), NEW])
+    add('none', [NEW, NEW])
+    add('none', [ELL, NEW])
+    add('none', [NEW, ELL, NEW])
+    add('none', [e_sl(None, None, -1), NEW])
+    if r >= 2:
+        add('none', [FULL, NEW, e_int(1)])
+        add('none', [e_int(0), NEW, e_int(1)])
+        add('none', [NEW, e_sl(1, None), NEW, e_sl(None, None, 2), NEW])
+    # -- E. several advanced indices: same shape, broadcasting pairs, with integers / slices / None / Ellipsis
+    if r >= 2:
+        a0 = e_arr([2], [n[0] - 1, 0])
+        a1 = e_arr([2], [1, -1], 'np')
+        add('iarr-pair', [a0, a1])
+        add('iarr-pair/broadcast', [e_arr([2, 1], [0, -1]), e_arr([3], [n[1] - 1, 0, 1])])
+        add('iarr-pair/broadcast', [e_arr([3], [0, 1, 0]), e_arr([2, 1], [-1, 0], 'np')])
+        add('iarr-pair/broadcast', [e_arr([2, 2], [0, 1, 1, 0]), e_arr([2], [0, -1])])
+        add('iarr-pair/broadcast', [e_arr([1], [1]), e_arr([3], [0, 2, 1])])
+        add('iarr-pair/broadcast', [e_arr([], [1]), e_arr([2], [0, 2])])
+        add('iarr+int', [a0, e_int(-1)])
+        add('iarr+int', [e_int(1, 'np'), a1])
+        add('iarr+slice', [a0, e_sl(None, None, -1)])
+        add('iarr+slice', [e_sl(None, None, 2), a1])
+        add('iarr+none', [a0, NEW])
+        add('iarr+none', [NEW, a0])
+        add('iarr+none', [a0, NEW, a1])
+        add('iarr+ellipsis', [a0, ELL])
+        add('iarr+ellipsis', [ELL, a1])
+        add('iarr+ellipsis', [a0, ELL, a1])
+        add('iarr-pair/last-axes', [ELL, a1, e_arr([2], [0, n[-1] - 1])] if r >= 3 else [ELL, a0, a1])
+    if r >= 3:
+        a2 = e_arr([2], [n[2] - 1, 1])
+        a1b = e_arr([2], [1, -1])
+        add('iarr-separated', [a0, FULL, a2])
+        add('iarr-separated', [a0, e_sl(None, None, -1), e_arr([3, 1], [0, 1, 2])])
+        add('iarr-separated', [e_int(1), FULL, a2])
+        add('iarr-separated', [a0, FULL, e_int(-1)])
+        add('iarr-separated', [a0, NEW, a1b])
+        add('iarr-adjacent', [FULL, e_int(0), a2])
+        add('iarr-adjacent', [FULL, a1b, a2])
+        add('iarr-adjacent', [e_sl(None, None, -1), a1b, e_int(2)])
+        add('iarr-adjacent', [a0, a1b, FULL])
+        add('iarr-adjacent', [a0, e_int(1), e_sl(None, None, 2)])
+        add('iarr-triple', [a0, a1b, a2])
+        add('iarr-triple/broadcast', [e_arr([2, 1, 1], [0, 1]), e_arr([3, 1], [0, 1, 2]), e_arr([2], [0, 3])])
+        add('iarr-triple/broadcast', [e_arr([2, 2], [0, 1, 1, 0]), e_int(-1), e_arr([2], [0, 3])])
+    # -- F. boolean masks of every rank 1..r: leading, trailing, combined with every other entry kind
+    for m in range(1, r + 1):
+        lead = n[:m]
+        for j, d in enumerate(mask_patterns(lead, rnd)):
+            add(f'mask{m}-of-{r}/leading', [e_mask(lead, d, 'np' if j % 2 else 'jnp')], False)
+        d = mask_patterns(lead, rnd, False)[0]
+        add(f'mask{m}-of-{r}/leading', [e_mask(lead, d, 'np')])
+        add(f'mask{m}-of-{r}+ellipsis', [e_mask(lead, d), ELL])
+        add(f'mask{m}-of-{r}+none', [e_mask(lead, d), NEW])
+        add(f'mask{m}-of-{r}+none', [NEW, e_mask(lead, d, 'np')])
+        if m < r:
+            trail = n[r - m:]
+            for j, dt_ in enumerate(mask_patterns(trail, rnd, False)):
+                add(f'mask{m}-of-{r}/trailing', [ELL, e_mask(trail, dt_, 'np' if j % 2 else 'jnp')])
+            dt_ = mask_patterns(trail, rnd, False)[0]
+            add(f'mask{m}-of-{r}/trailing', [FULL] * (r - m) + [e_mask(trail, dt_)])
+            add(f'mask{m}-of-{r}+int', [e_mask(lead, d), e_int(-1)])
+            add(f'mask{m}-of-{r}+int', [e_int(n[0] - 1)] + [e_mask(n[1:1 + m], mask_patterns(n[1:1 + m], rnd, False)[0], 'np')])
+            add(f'mask{m}-of-{r}+slice', [e_mask(lead, d, 'np'), e_sl(None, None, -2)])
+            add(f'mask{m}-of-{r}+slice', [e_sl(None, None, -1)] + [e_mask(n[1:1 + m], mask_patterns(n[1:1 + m], rnd, False)[1])])
+            k = sum(d)
+            add(f'mask{m}-of-{r}+iarr', [e_mask(lead, d), e_arr([k], [(-1) ** i * (i % n[m]) for i in range(k)])])
+            add(f'mask{m}-of-{r}+iarr', [e_mask(lead, d, 'np'), e_arr([1], [n[m] - 1])])
+            add(f'mask{m}-of-{r}+iarr', [e_mask(lead, d), e_arr([2, 1], [0, -1])])
+            if m == 1:
+                # a second mask with as many selected entries on the next axis
+                d2 = [i < k for i in range(n[1])]
+                rnd.shuffle(d2)
+                if sum(d2) == k:
+                    add(f'mask1-of-{r}+mask1', [e_mask(lead, d), e_mask([n[1]], d2, 'np')])
+        if m + 2 <= r:
+            dl = mask_patterns([n[-1]], rnd, False)[0]
+            add(f'mask{m}-of-{r}/separated', [e_mask(lead, d), FULL, e_arr([2], [0, n[-1] - 1])])
+            add(f'mask{m}-of-{r}/separated', [e_mask(lead, d), FULL, e_int(-1)])
+            add(f'mask{m}-of-{r}/separated', [e_mask(lead, d, 'np'), NEW, e_sl(None, None, -1), e_int(0)])
+            one = [i == len(dl) - 2 for i in range(len(dl))]
+            add(f'mask{m}-of-{r}/separated', [e_mask(lead, d), FULL, e_mask([n[-1]], dl if sum(dl) == sum(d) else one, 'np')])
+    if r == 3:
+        mid = mask_patterns(n[1:], rnd, False)[0]
+        add('mask2-of-3/middle+last', [e_int(0), e_mask(n[1:], mid)])
+        add('mask1-of-3/middle', [FULL, e_mask([n[1]], mask_patterns([n[1]], rnd, False)[0]), e_sl(None, None, -1)])
+        add('mask1-of-3/middle', [e_sl(None, None, -1), e_mask([n[1]], mask_patterns([n[1]], rnd, False)[1], 'np'), e_int(-1)])
+    # rank-0 masks (Python bools, 0-d boolean arrays): outside the Coq model, NumPy oracle only
+    for b in (0, 1):
+        add('mask0', [e_mask([], [b], 'np')], False)
+        add('mask0', [['bool', b]], False)
+    add('mask0', [['bool', 1], e_int(-1)])
+    add('mask0', [e_sl(None, None, -1), e_mask([], [1], 'jnp')])
+    # -- G. malformed
+    add('bad/too-many', [e_int(0)] * (r + 1))
+    add('bad/too-many', [FULL] * r + [e_arr([1], [0])])
+    add('bad/too-many', [ELL] + [FULL] * (r + 1))
+    add('bad/too-many-by-mask', [e_mask(n + [1], [1] * prod(n))], False)
+    add('bad/too-many-by-mask', [e_int(0), e_mask(n, [1] * prod(n))])
+    add('bad/two-ellipsis', [ELL, e_int(0), ELL])
+    add('bad/mask-shape', [e_mask([n0 + 1], [1] * (n0 + 1))], False)
+    add('bad/mask-shape', [e_mask([n0 - 1], [1] * (n0 - 1), 'np')], False)
+    add('bad/slice-step-0', [e_sl(None, None, 0)], False)
+    if r >= 2:
+        add('bad/mask-shape', [e_mask([n[0], n[1] + 1], [1] * (n[0] * (n[1] + 1)))], False)
+        add('bad/mask-shape', [e_mask([n[1], n[0]], [1] * (n[0] * n[1]), 'np')], False)
+        add('bad/mask-shape', [FULL, e_mask([n[0]], [1] * n[0])])
+        add('bad/not-broadcastable', [e_arr([2], [0, 1]), e_arr([3], [0, 1, 0])])
+        add('bad/not-broadcastable', [e_mask([n[0]], [1] * n[0]), e_arr([n[0] + 1], [0] * (n[0] + 1))])
+        add('bad/not-broadcastable', [e_mask([n[0]], [1, 1] + [0] * (n[0] - 2)), e_mask([n[1]], [1, 1, 1] + [0] * (n[1] - 3), 'np')])
+    return out
+
+
+def random_index(shape, rnd):
+    """A seeded random valid index expression for a component of this shape (rank >= 1)."""
+    r = len(shape)
+    es, axis, used_ell = [], 0, False
+    bshape_ = rnd.choice([[2], [3], [2, 1], [1, 2], [2, 2]])
+    while axis < r:
+        roll = rnd.random()
+        nk = shape[axis]
+        if roll < 0.12:
+            es.append(NEW)
+            continue
+        if roll < 0.2 and not used_ell:
+            used_ell = True
+            skip = rnd.randint(0, r - axis)
+            es.append(ELL)
+            axis += skip
+            continue
+        if roll < 0.4:
+            es.append(e_int(rnd.randint(-nk, nk - 1), rnd.choice(['py', 'py', 'np', 'jnp'])))
+        elif roll < 0.62:
+            st = rnd.choice([None, 1, 2, 3, -1, -2, -3])
+            es.append(e_sl(rnd.choice([None, rnd.randint(-nk - 1, nk + 1)]), rnd.choice([None, rnd.randint(-nk - 1, nk + 1)]), st))
+        elif roll < 0.82:
+            sh = rnd.choice([bshape_, bshape_, bshape_[-1:], [1], []])
+            es.append(e_arr(sh, [rnd.randint(-nk, nk - 1) for _ in range(prod(sh))], rnd.choice(['jnp', 'np'])))
+        else:
+            m = rnd.randint(1, r - axis)
+            msh = shape[axis:axis + m]
+            # as many selected entries as the last axis of the common index-array shape (or one): broadcastable
+            k = rnd.choice([c for c in (1, bshape_[-1]) if c <= prod(msh)])
+            d = [i < k for i in range(prod(msh))]
+            rnd.shuffle(d)
+            es.append(e_mask(msh, d, rnd.choice(['jnp', 'np'])))
+            axis += m - 1
+        axis += 1
+        if not used_ell and axis < r and rnd.random() < 0.25:
+            break
+    while rnd.random() < 0.1:
+        es.append(NEW)
+    return index_desc(es, True) if len(es) != 1 or rnd.random() < 0.5 else index_desc(es, False)
+
+
 # ----------------------------------------------------------------------------------------------
 # exact reference arithmetic (NumPy object arrays of Fractions)
 
@@ -896,7 +1307,8 @@ class Check(PropertyCheck):
         'JAX leaf primitives as specified in Model/StokesTree.v part 2 and compared with JAX by this harness: the '
         'dtype promotion lattice (all 12x12 pairs and 12^3 triples of jnp.result_type, both x64 modes - complete), '
         'result types of + - * / ** on non-boolean operands (all pairs, vector and 0-d forms), NumPy broadcasting, '
-        'first-axis indexing, ravel, reshape, jnp.full, jnp.astype, jax.eval_shape, jnp.vdot = sum conj(x_i) y_i, '
+        'indexing (NumPy basic + advanced indexing semantics as specified by arr_index: in-range indices, masks as '
+        'their nonzero() coordinates, placement of the broadcast index axes), ravel, reshape, jnp.full, jnp.astype, jax.eval_shape, jnp.vdot = sum conj(x_i) y_i, '
         'jax.random.split/normal/uniform (only shape, dtype and which sub-key is used are modelled)',
         'floating point: leaves are exact rationals (Gaussian integers for dot); quotients are rounded to the result '
         'dtype by the harness (IEEE division is correctly rounded); all other operations are exact on the generated '
@@ -921,7 +1333,9 @@ class Check(PropertyCheck):
             'boundaries (not defects): a NumPy scalar on the LEFT of a container arrives as a Python scalar, so with x64 '
             'np.float64(2) - s keeps float32 leaves while s - np.float64(2) gives float64; NumPy non-scalar arrays are '
             'not handled by the dunders (NumPy builds object arrays); str operands count as scalars for jnp.isscalar; '
-            'from_stokes only accepts upper-case keywords; StokesPyTree.structure reports the dtype of the first '
+            'out-of-range integer indices are clamped by JAX where NumPy raises, lists as indices are rejected by JAX, and '
+            'jnp.reshape raises ZeroDivisionError for a target with both 0 and -1 (none generated: leaf-primitive behaviour, '
+            'identical on every component); from_stokes only accepts upper-case keywords; StokesPyTree.structure reports the dtype of the first '
             'component for every component; structure_for keeps a non-canonical dtype (float64 with x64 off)',
             'tree-level sesquilinearity of dot follows from dot_hermitian_sum and the vdot lemmas but is not stated as '
             'one theorem',
@@ -990,6 +1404,8 @@ class Check(PropertyCheck):
                     idx = [['int', 0], ['slice', 0, 1]]
                 for ix in idx:
                     out.append({'kind': 'getitem', 'x64': x64, 's': s, 'index': ix})
+        out += self.index_cases(x64, quick)
+        out += self.shape_method_cases(x64, quick)
         # scalar product between containers (__matmul__)
         g = lambda k, off: {'o': 'stokes', 'kind': k, 'comps': [arr([2], 'c64', [[PRIMES[off + 2 * c + j], (-1) ** j * PRIMES[off + 9 + 2 * c + j]] for j in range(2)]) for c in range(len(k))]}  # noqa: E731
         for kind in KINDS:
@@ -998,6 +1414,58 @@ class Check(PropertyCheck):
             out.append({'kind': 'matmul', 'x64': x64, 'l': g(kind, 0), 'r': g(KINDS[(KINDS.index(kind) + 1) % 4], 18)})
             out.append({'kind': 'matmul', 'x64': x64, 'l': g(kind, 0), 'r': val(arr([], 'i64', [[2, 0]], True, 'py'))})
             out.append({'kind': 'matmul', 'x64': x64, 'l': val(arr([2], 'f32', [[2, 0], [3, 0]])), 'r': g(kind, 0)})
+        return out
+
+    def index_cases(self, x64, quick):
+        """tree[index] for every NumPy index form on components of rank 0-3 (index_forms) and a seeded random
+        stream (random_index); Stokes kind and dtype configuration rotate over the forms (thorough: every kind)."""
+        import random
+
+        out = []
+        rnd = random.Random(f'C20-index-{self.seed}')  # cases() is called more than once: same stream every time
+        j = int(x64)
+        for shape in INDEX_SHAPES:
+            forms = index_forms(shape, rnd)
+            nrand = 0 if not shape else (12 * len(shape) if quick else 150 * len(shape))
+            forms += [('random', random_index(shape, rnd)) for _ in range(nrand)]
+            for label, ixd in forms:
+                kinds = [KINDS[j % 4]] if quick else KINDS
+                for kind in kinds:
+                    cfg = DTCFG[(j // 4 + KINDS.index(kind)) % 4]
+                    s = stokes_desc(kind, shape, cfg, 0)
+                    out.append({'kind': 'index', 'x64': x64, 's': s, 'index': ixd, 'cls': label})
+                j += 1
+        return out
+
+    def shape_method_cases(self, x64, quick):
+        """ravel / reshape on components of rank 0-3 incl. empty ones; reshape targets: every ordered factorisation
+        into <= 3 factors of small sizes, -1 at every position, impossible targets, four spellings of the argument."""
+        out = []
+        shapes = [[], [1], [6], [2, 3], [1, 4], [2, 3, 2], [2, 1, 3], [0], [2, 0], [0, 3, 2]]
+        for i, shape in enumerate(shapes):
+            kind = KINDS[(i + x64) % 4]
+            cfg = DTCFG[(i + 2 * x64) % 4]
+            s = stokes_desc(kind, shape, cfg, 0)
+            size = prod(shape)
+            out.append({'kind': 'ravel', 'x64': x64, 's': s})
+            # (a target with both 0 and -1 makes jnp.reshape raise ZeroDivisionError: a JAX quirk, not generated)
+            news = [[], [size], [-1], [1, -1], [-1, 1], [1, size, 1], [-1, 1, 1], [1, -1, 1], [size + 1], [-1, -1], [size, 0]]
+            div = [a for a in range(2, size + 1) if size % a == 0]
+            for a in div:
+                news += [[a, size // a], [a, -1], [-1, a]]
+                for b in [b for b in div if (size // a) % b == 0 and b < size // a][:2]:
+                    news += [[a, b, size // a // b], [[-1, a, b], [a, -1, size // a // b], [a, b, -1]][(a + b) % 3]]
+            news += [[a, -1] for a in range(2, 5) if size % a] + [[-1, a, 2] for a in (2, 3) if size % (2 * a)]
+            if size == 0:
+                news += [[0], [2, 0], [0, 5], [3, -1], [-1, 3]]
+            seen = []
+            for new in news:
+                if new in seen:
+                    continue
+                seen.append(new)
+                forms = ['tuple'] + (['int', 'list', 'npint'] if len(new) == 1 and len(seen) % 2 else [['list'], ['npint'], []][len(seen) % 3])
+                for form in forms:
+                    out.append({'kind': 'reshape', 'x64': x64, 's': s, 'new': new, 'form': form})
         return out
 
     def factory_cases(self, x64, quick):
@@ -1072,7 +1540,17 @@ class Check(PropertyCheck):
             'other dtype / broadcast / incompatible shape; other kind; Python int/float; NumPy f32/f64/i32/i64 scalars and 0-d '
             'array; JAX 0-d weak/strong; broadcasting and incompatible JAX arrays; str, None, list, dict) with distinct '
             'prime-valued components. rawop: _operation/_roperation called with a recording leaf function. unary, ravel, '
-            'reshape (incl. -1, impossible), getitem (int, negative, slice, index array), matmul; class_for on 27 names; '
+            'reshape (incl. -1, impossible), getitem (int, negative, slice, index array), matmul; index: tree[index] on '
+            'components of shape (), (5,), (3,4), (2,3,4) for every NumPy basic/advanced index form - ints (negative; Python / '
+            'NumPy / 0-d JAX), slices with positive and negative steps and clamped bounds, Ellipsis (also zero-width), None, '
+            'tuples mixing them, integer arrays of rank 0-3 on every axis, pairs and triples of index arrays (equal shapes, '
+            'broadcasting, adjacent and separated by slices / None / Ellipsis, mixed with ints), boolean masks of EVERY rank '
+            '1..rank (leading, trailing, middle; random / all-False / all-True patterns; NumPy and JAX masks; combined with '
+            'ints, slices, None, Ellipsis, index arrays and other masks), rank-0 masks (NumPy oracle only), malformed indices '
+            '(too many, two Ellipsis, mask shape mismatch, not broadcastable, step 0), plus a seeded random stream of valid '
+            'index tuples; Stokes kind and dtype configuration rotate over the forms (thorough: all kinds). ravel / reshape on '
+            'shapes of rank 0-3 incl. empty: all 2-factorisations and some 3-factorisations of the size, -1 at every position, '
+            'impossible targets, argument spelled as tuple / list / bare int / NumPy ints; class_for on 27 names; '
             'factories x shapes (incl. empty) x 11 dtype spellings; from_stokes positional 0..5 / keyword sets / both, 9 leaf '
             'pools; from_iquv; dot on complex / nested / mismatching trees, both argument orders; helpers on 23 nested trees '
             'of arrays, ShapeDtypeStructs, Python scalars, empty containers. Distinct by canonical JSON of the case.'
@@ -1081,7 +1559,9 @@ class Check(PropertyCheck):
     def distribution(self, cases):
         d = {}
         for c in cases:
-            k = c['kind'] + ('/' + c['which'] if 'which' in c else '') + ('/x64' if c.get('x64') else '')
+            cls = c.get('cls', '').split('/')[0].split('@')[0].split('+')[0].split('-of-')[0]
+            cls = 'mask' if cls.startswith('mask') else 'iarr' if cls.startswith('iarr') else cls
+            k = c['kind'] + ('/' + c['which'] if 'which' in c else '') + ('/' + cls if cls else '') + ('/x64' if c.get('x64') else '')
             d[k] = d.get(k, 0) + 1
         return d
 
@@ -1156,6 +1636,10 @@ class Check(PropertyCheck):
             ix = case['index']
             index = f'(IInt ({ix[1]})%Z)' if ix[0] == 'int' else f'(ISlice {ix[1]} {ix[2]})' if ix[0] == 'slice' else f'(IArr {clist(ix[1], lambda z: f"({z})%Z")})'
             return f'rmap show_stokes (stokes_getitem {index} {coq_stokes(case["s"], x64)})'
+        if kind == 'index':
+            if not index_modelled(case['index']):
+                return None
+            return f'rmap show_stokes (stokes_index {coq_index(case["index"])} {coq_stokes(case["s"], x64)})'
         if kind == 'ravel':
             return f'rmap show_stokes (stokes_ravel {coq_stokes(case["s"], x64)})'
         if kind == 'reshape':
@@ -1235,7 +1719,7 @@ class Check(PropertyCheck):
             n2, a = ctor(args[0])
             tg = lambda z: 'str' if z == 999 else z  # noqa: E731
             return {'ok': KIND_OF_COQ[a[0]['c']], 'calls': [[tg(z // 1000), tg(z % 1000)] for z in a[1]]}
-        if kind in ('binop', 'getitem', 'ravel', 'reshape', 'from_stokes', 'from_iquv'):
+        if kind in ('binop', 'getitem', 'index', 'ravel', 'reshape', 'from_stokes', 'from_iquv'):
             return dec_res(v, dec_stokes)
         if kind == 'unary':
             r = dec_res(v, dec_stokes)
@@ -1381,7 +1865,7 @@ class Check(PropertyCheck):
         return self._mapped(case, obs, lambda a: a.ravel(), 'ravel')
 
     def oracle_reshape(self, case, obs):
-        return self._mapped(case, obs, lambda a: a.reshape(case['new']), f'reshape({case["new"]})')
+        return self._mapped(case, obs, lambda a: a.reshape(case['new']), f'reshape({case["new"]} as {case.get("form", "tuple")})')
 
     def oracle_getitem(self, case, obs):
         import numpy as np
@@ -1389,6 +1873,10 @@ class Check(PropertyCheck):
         ix = case['index']
         index = ix[1] if ix[0] == 'int' else slice(ix[1], ix[2]) if ix[0] == 'slice' else np.array(ix[1], dtype=int)
         return self._mapped(case, obs, lambda a: a[index], f'[{ix}]')
+
+    def oracle_index(self, case, obs):
+        index = py_index(case['index'], reference=True)
+        return self._mapped(case, obs, lambda a: a[index], f'{case["s"]["comps"][0]["shape"]}-shaped components{show_index(case["index"])} ({case["cls"]})')
 
     def oracle_matmul(self, case, obs):
         l, r = case['l'], case['r']
@@ -1611,6 +2099,8 @@ class Check(PropertyCheck):
     def finding_key(self, case, obs):
         if case['kind'] == 'helper' and case['which'] == 'promoted' and case['name'] in ('empty-list', 'empty-dict', 'empty-tuple', 'none', 'nested-empty'):
             return 'as-promoted-dtype-tree-without-leaves'
+        if case['kind'] == 'index':  # one replay per class of index expression and component rank
+            return f'index/{case["cls"]}/rank{len(case["s"]["comps"][0]["shape"])}'
         return case.get('key')
 
 
